@@ -5,7 +5,6 @@ package main
 import (
 	"fmt"
 	"path/filepath"
-	"go/ast"
 	"go/constant"
 	"go/token"
 	"go/types"
@@ -476,28 +475,38 @@ func (env *Env) resolveType(text string) types.Type {
 	text = strings.TrimSpace(text)
 	p := env.e.P
 	var tp *types.Package = env.pkg
-	pos := token.NoPos
+	var positions []token.Pos
 	if tp != nil {
 		if pk := p.TPkgs[tp.Path()]; pk != nil {
 			for i, f := range pk.Syntax {
 				if bn := filepath.Base(pk.CompiledGoFiles[i]); strings.HasPrefix(bn, "contracts") && strings.HasSuffix(bn, "_verif.go") {
-					pos = f.End() - 1
+					pos := f.End() - 1
 					if n := len(f.Decls); n > 0 {
 						pos = f.Decls[n-1].End()
 					}
-					_ = ast.File{}
+					positions = append(positions, pos)
 				}
 			}
 		}
 	}
-	tv, err := types.Eval(p.Fset, tp, pos, text)
-	if err != nil {
-		cfail("cannot resolve type %q: %v", text, err)
+	if len(positions) == 0 {
+		positions = append(positions, token.NoPos)
 	}
-	if !tv.IsType() {
-		cfail("%q is not a type", text)
+	// the imports of every contract file of the package are tried (a type may be importable from only one of them)
+	var lastErr error
+	for _, pos := range positions {
+		tv, err := types.Eval(p.Fset, tp, pos, text)
+		if err != nil {
+			lastErr = err
+			continue
+		}
+		if !tv.IsType() {
+			cfail("%q is not a type", text)
+		}
+		return types.Unalias(tv.Type)
 	}
-	return tv.Type
+	cfail("cannot resolve type %q: %v", text, lastErr)
+	return nil
 }
 
 func (env *Env) resolveTypeOrGhost(text string) (types.Type, Sort, string) {
@@ -990,6 +999,23 @@ func (e *Exec) loopEnv(li *loopInfo, phiVals map[ssa.Value]Val, st *State, iters
 				}
 			}
 			return cval{}, false
+		case "$s":
+			// the slice a `for .. range slice` loop iterates over (the SSA operand, also when it is an anonymous call
+			// result): the header compares the index with len($s)
+			for _, in := range li.header.Instrs {
+				if b, ok := in.(*ssa.BinOp); ok && b.Op.String() == "<" {
+					if c, ok := b.Y.(*ssa.Call); ok {
+						if bi, ok := c.Call.Value.(*ssa.Builtin); ok && bi.Name() == "len" && len(c.Call.Args) == 1 {
+							if v, ok := e.vals[c.Call.Args[0]]; ok {
+								if t, ok := v.(*Term); ok {
+									return cval{t: t, ty: c.Call.Args[0].Type()}, true
+								}
+							}
+						}
+					}
+				}
+			}
+			return cval{}, false
 		case "$visited":
 			var rs []ssa.Value
 			for r := range its {
@@ -1070,36 +1096,94 @@ func (e *Exec) loopEnv(li *loopInfo, phiVals map[ssa.Value]Val, st *State, iters
 
 // localByName finds the value of a source-level local variable visible at block `at`.
 func (e *Exec) localByName(name string, at *ssa.BasicBlock, st *State) (cval, bool) {
-	refs := e.debugVals[name]
-	var best *debugRef
-	for i := range refs {
-		r := &refs[i]
-		if _, isPhi := r.v.(*ssa.Phi); isPhi && r.v.(*ssa.Phi).Block() == at {
+	// Candidates: (a) header phis with that source name in blocks strictly dominating `at` (a variable assigned in an
+	// earlier loop), (b) every SSA value a debug reference of the name points to whose DEFINITION dominates `at` (SSA
+	// values are immutable, where the reference itself sits is irrelevant). Constants (the `nil`/zero initial value
+	// go/ssa records at a declaration) only count when nothing else exists. Of several values the reaching one is the
+	// one whose definition is dominated by all the others; otherwise the name is ambiguous and not resolved.
+	type cand struct {
+		v      ssa.Value
+		isAddr bool
+		block  *ssa.BasicBlock
+	}
+	var cands []cand
+	add := func(v ssa.Value, isAddr bool, b *ssa.BasicBlock) {
+		for _, c := range cands {
+			if c.v == v {
+				return
+			}
+		}
+		cands = append(cands, cand{v, isAddr, b})
+	}
+	entry := e.Fn.Blocks[0]
+	for _, b := range e.Fn.Blocks {
+		if b == at || !b.Dominates(at) {
 			continue
 		}
-		var defBlock *ssa.BasicBlock
-		if in, ok := r.v.(ssa.Instruction); ok {
-			defBlock = in.Block()
-		}
-		if defBlock != nil && !(defBlock.Dominates(at) && defBlock != at) {
-			continue
-		}
-		if !(r.block.Dominates(at)) {
-			continue
-		}
-		if _, have := e.vals[r.v]; !have {
-			if _, isConst := r.v.(*ssa.Const); !isConst {
-				if _, isParam := r.v.(*ssa.Parameter); !isParam {
-					continue
+		for _, in := range b.Instrs {
+			phi, ok := in.(*ssa.Phi)
+			if !ok {
+				break
+			}
+			if phi.Comment == name {
+				if _, have := e.vals[phi]; have {
+					add(phi, false, b)
 				}
 			}
 		}
-		if best == nil || best.block.Dominates(r.block) {
-			best = r
+	}
+	var constCand *cand
+	for i := range e.debugVals[name] {
+		r := &e.debugVals[name][i]
+		switch v := r.v.(type) {
+		case *ssa.Const:
+			if constCand == nil {
+				constCand = &cand{v, false, entry}
+			}
+		case *ssa.Parameter, *ssa.FreeVar:
+			add(r.v, r.isAddr, entry)
+		case ssa.Instruction:
+			db := v.Block()
+			if db == nil || db == at || !db.Dominates(at) {
+				continue
+			}
+			if _, have := e.vals[r.v]; !have {
+				continue
+			}
+			add(r.v, r.isAddr, db)
 		}
 	}
-	if best == nil {
+	if len(cands) == 0 && constCand != nil {
+		cands = append(cands, *constCand)
+	}
+	if len(cands) == 0 {
 		return cval{}, false
+	}
+	best := cands[0]
+	for _, c := range cands[1:] {
+		if best.block.Dominates(c.block) && best.block != c.block {
+			best = c
+		} else if c.block == best.block {
+			// same block: the later instruction wins
+			if bi, ok := best.v.(ssa.Instruction); ok {
+				if ci, ok := c.v.(ssa.Instruction); ok {
+					for _, in := range c.block.Instrs {
+						if in == bi {
+							best = c
+							break
+						}
+						if in == ci {
+							break
+						}
+					}
+				}
+			}
+		}
+	}
+	for _, c := range cands {
+		if c.v != best.v && !(c.block.Dominates(best.block)) {
+			return cval{}, false // ambiguous: definitions on incomparable paths
+		}
 	}
 	v := e.val(best.v)
 	if best.isAddr {
@@ -1144,7 +1228,12 @@ type specDef struct {
 	done   bool
 }
 
-var specDefs = map[*SpecFun]*specDef{}
+type specKey struct {
+	sf     *SpecFun
+	opaque bool
+}
+
+var specDefs = map[specKey]*specDef{}
 
 // specUnfoldDepth: rounds of unfolding of recursive specification functions at ground applications.
 var specUnfoldDepth = 3
@@ -1161,13 +1250,17 @@ func (e *Exec) specPkg(sf *SpecFun) *types.Package {
 // defineSpec translates a spec function into a (recursive) SMT definition; heap components it reads become
 // leading parameters. Fixpoint over the read sets of mutually recursive definitions.
 func (e *Exec) defineSpec(sf *SpecFun) *specDef {
-	if d, ok := specDefs[sf]; ok {
+	sfKey := specKey{sf, opaqueStrings}
+	if d, ok := specDefs[sfKey]; ok {
 		return d
 	}
 	pkg := e.specPkg(sf)
 	env0 := &Env{e: e, pkg: pkg, names: map[string]cval{}}
 	d := &specDef{sf: sf, smt: "spec_" + sf.Pkg + "_" + sf.Name}
-	specDefs[sf] = d
+	if opaqueStrings {
+		d.smt += "_o"
+	}
+	specDefs[sfKey] = d
 	for _, p := range sf.Params {
 		ty, srt, ghost := env0.resolveTypeOrGhost(p.Type)
 		bv := TS.intern(&Term{Name: smtName("sp_" + sf.Name + "_" + p.Name), Sort: srt, flags: flagHasBound})
@@ -1228,20 +1321,13 @@ func (e *Exec) defineSpec(sf *SpecFun) *specDef {
 		if strings.Join(d.reads, ",") == before && iter > 0 {
 			break
 		}
-		// callees defined during this iteration may have been given stale read sets of d: re-run them
-		for other, od := range specDefs {
-			if other != sf && !other.Opaque && od.done {
-				// cheap: nothing to do, definitions are re-evaluated lazily only when d's reads change
-				_ = od
-			}
-		}
 	}
 	d.done = true
 	return d
 }
 
 func paramLeaf(comp string) *Term {
-	t := TS.intern(&Term{Name: smtName("hp$" + comp), Sort: allSorts[comp], flags: flagHasBound})
+	t := TS.intern(&Term{Name: smtName("hp$" + comp), Sort: allSorts.m()[comp], flags: flagHasBound})
 	t.flags |= flagHasBound
 	return t
 }
@@ -1336,7 +1422,7 @@ func (e *Exec) applySpec(sf *SpecFun, args []cval, env *Env) cval {
 		cfail("spec %s applied without a state", sf.Name)
 	}
 	for _, r := range d.reads {
-		ts = append(ts, env.st.Get(r, allSorts[r]))
+		ts = append(ts, env.st.Get(r, allSorts.m()[r]))
 	}
 	for i, a := range args {
 		t := a.t
